@@ -90,7 +90,8 @@ def run_extractor(rundir):
     os.makedirs(gen, exist_ok=True)
     tmp = os.path.join(rundir, "gen")
     os.makedirs(tmp, exist_ok=True)
-    rc, out, _ = sh(["go", "run", ex, "-repo", REPO, "-out", tmp], cwd=os.path.join(VERIF, "extract"), env=GOENV, timeout=300)
+    srcs = sorted(f for f in os.listdir(os.path.dirname(ex)) if f.endswith(".go") and not f.endswith("_test.go"))
+    rc, out, _ = sh(["go", "run"] + srcs + ["-repo", REPO, "-out", tmp], cwd=os.path.join(VERIF, "extract"), env=GOENV, timeout=300)
     if rc != 0:
         return False, out
     # only touch files whose content changed, so lake does not rebuild needlessly
@@ -592,13 +593,35 @@ def run_check(prop, tier, seed, cfg, rundir, t0, replay_file):
         try:
             facts = json.load(open(os.path.join(rundir, "gen", "facts.json")))
             ktext = open(os.path.join(VERIF, cfg["access_known_file"])).read()
-            kpairs = set(a + "|" + b for a, b in re.findall(r'\("([^"]+)",\s*"([^"]+)"\)', ktext))
+            def known_block(name):
+                m = re.search(r"def " + name + r"\b[^\[]*:= \[(.*?)\n\]", ktext, re.S)
+                return set(a + "|" + b for a, b in re.findall(r'\("([^"]+)",\s*"([^"]+)"\)', m.group(1))) if m else set()
+            kpairs = known_block("knownPairs")
             for v in facts.get("violations", []):
                 if v not in kpairs:
                     c = {"id": "access-table", "ops": ["extract /repo/torrent"], "obs": [v]}
                     report_violation("access", c, None, f"{prop} unsynchronised-access pair={v}", "oracle")
             fixed_pairs = sorted(kpairs - set(facts.get("violations", [])))
             if fixed_pairs: log(f"[{prop}] known pairs no longer present: {fixed_pairs[:5]}")
+            # guarded fields of Session touched without their mutex: sites not in the Lean known list are violations,
+            # recorded ones must be covered by a known finding
+            for v in facts.get("session_field_violations", []):
+                sites = [x for x in facts.get("session_field_violation_sites", []) if x.startswith(v + "|")]
+                c = {"id": "session-fields", "ops": ["extract guarded fields of Session (theorem Rain.Props.C20.session_fields_guarded_except_known)"] + ["site " + x for x in sites],
+                     "obs": [v] + ["guard not held (or only shared for a write)"] * len(sites)}
+                report_violation("session-fields", c, None, f"{prop} unguarded-session-field:{v.replace('|', ':')}", "static")
+            # lock-nesting graph: every cycle found by the extractor is a counterexample to lock_nesting_acyclic;
+            # the replay lists the nestings (function, file:line, call chain) that close the cycle
+            for cyc in facts.get("lock_cycles", []):
+                name = ">".join(cyc["locks"] + cyc["locks"][:1])
+                c = {"id": "lock-nesting", "ops": ["extract lock nesting of /repo/torrent and /repo/internal (theorem Rain.Props.C20.lock_nesting_acyclic fails)"] + ["edge " + e for e in cyc["edges"]],
+                     "obs": ["cycle " + name] + ["potential deadlock: one goroutine per edge, each holding the first lock and waiting for the second"] * len(cyc["edges"])}
+                report_violation("lock-nesting", c, None, f"{prop} lock-nesting-cycle:{name} theorem=Rain.Props.C20.lock_nesting_acyclic", "static")
+            for le in facts.get("lock_loop_carried", []):
+                if not le.get("gate"):
+                    c = {"id": "lock-nesting", "ops": [f"extract lock nesting (theorem Rain.Props.C20.loop_carried_locks_gated fails)"],
+                         "obs": [f"{le['fn']} at {le['pos']} takes {le['lock']} of one element after the other without an exclusive lock around the sequence"]}
+                    report_violation("lock-nesting", c, None, f"{prop} loop-carried-lock-ungated:{le['fn']}:{le['lock']} theorem=Rain.Props.C20.loop_carried_locks_gated", "static")
         except Exception as e:
             corr_broken.append("access table: " + str(e))
 
